@@ -265,6 +265,24 @@ theorem V2_source_cfg_synced_guard (c : Cfg) (rel : Option Rel) (env : Env) (set
       (c.applied = 0 ∨ (setFails = false ∧ ∃ r, rel = some r ∧ r.conn = true)) :=
   source_cfg_synced_guard c rel env setFails h
 
+/-! ### order of the two writes inside the configuration store calls (regenerated store facts) -/
+
+/-- `configurations.Update` and `configurations.UpdateStatus` (v2) write the value side map BEFORE
+    the compare-and-set of the entry that carries the cursors.  The twin's plans put `cfgVals` /
+    `cfgAVals` before `cfg` for exactly this reason (`propCommit`, `statusWrite`), and the re-entrancy
+    guards rely on it: a crash between the two writes leaves `Committed.Index` behind, so the retry
+    merges again; with the entry first it would find the index advanced and skip the merge for ever
+    (C02 C05 C07). -/
+theorem V2_fact_cfg_values_before_entry :
+    Generated.StoreFacts.v2CfgUpdateValuesFirst = true ∧ Generated.StoreFacts.v2CfgUpdateStatusValuesFirst = true ∧
+    (∀ (c : Cfg) (a v : Config.VMap) (u : CfgUpd) (oc : OnConflict), a ≠ [] →
+      statusWrite c a v u oc = [.cfgAVals c.target a, .cfg c.target c.version u (some v) [] oc]) := by
+  refine ⟨by decide, by decide, ?_⟩
+  intro c a v u oc ha
+  cases a with
+  | nil => contradiction
+  | cons x t => simp [statusWrite]
+
 /-! non-vacuity: a concrete state in which the abort skeleton takes its first branch, with the
     trace written out -/
 example :
